@@ -345,3 +345,15 @@ PROPS["C17"] = dict(
     level_text="Sampled histories with exact per-revision oracles.",
     level_note="Trusted base: pyref/pdf.py, pyref/validate.py, gen/rawpdf.rs. write_incremental_with_page_replacement / _with_overlay (path-based writer entry points) are not driven.",
 )
+
+PROPS["C15"] = dict(
+    title="The document-to-chunks pipeline preserves content and provenance",
+    level="exploration",
+    technique="end-to-end reference-model monitor: multi-page documents are authored through the public API from a model with unique marker words; the written file is reopened and run through rag_chunks / rag_chunks_with / rag_chunks_with_source(_and_config) / rag_chunks_json; the monitor reads the returned chunks and decides conservation (every marker in exactly one chunk), provenance (page_numbers = authored pages), heading context (governing authored heading, only when the classifier promoted the authored headings) and determinism (second run over a fresh parse serialises identically)",
+    stages=[rust()],
+    rule="1-5 pages, up to 6 blocks per page: headings (bold 16-24 pt) with 1/3 probability, paragraphs and list items of 1-5 lines of unique words in 10-11 pt, page breaks inside sections, documents without headings; body kept out of the top/bottom header and footer bands; x default configuration and 3 sampled HybridChunkConfig (max_tokens 8..512, merge, propagation, both policies, 4 context modes) x 2 entry points + the JSON entry point. Non-trivial: at least one chunk; distinct by (case, configuration, entry point)",
+    assumptions=["headings are judged only on documents whose authored headings were all classified as titles (precondition counted in the evidence)", "page numbers may be 0- or 1-based but must be consistent within a result", "a chunk that begins with a heading line may carry that heading"],
+    floors={"quick": {"evaluations": 3000, "distinct": 2500, "counters": {"marker_words_tracked": 300000, "determinism_reruns": 2500, "heading_clause_judged": 800}}, "thorough": {"evaluations": 150000, "distinct": 120000}},
+    level_text="Sampled documents and configurations; exact marker-level oracle.",
+    level_note="Trusted base: the authoring model in harness/src/wl/c15.rs. Tables (add_table) and cross-process determinism are not driven; ids are compared between two runs in one process only.",
+)
